@@ -8,6 +8,20 @@ HERE = os.path.dirname(os.path.dirname(os.path.abspath(__file__)))
 
 # id -> (technique, level text, level note, design ref)
 CLAIMS = {
+    "C17": (
+        "must-dataflow (typestate) over the sampling / end-of-run handlers and over both mediator run loops with helper "
+        "inlining; reflection-dispatch resolution table; config-graph rule on self-clocked taggers; syntactic clock rules",
+        "Decides for all histories that what a sample sees is a fully time-sliced post-commit state: the sampling and "
+        "end-of-run out-states store and slice the whole active state they are given, that state is exactly the extracted "
+        "active global state, both run loops commit the out-state before trashing and before the mediating method on "
+        "every path, the mediating methods write a fresh global state and end-of-run always raises; that the fixed-"
+        "interval clocks advance by exactly one configured interval per candidate through Time.__add__ and the run ends "
+        "at Time.from_float(configured end time); that the reflective get_arguments_*/mediate_* dispatch resolves "
+        "uniquely with matching arity for all 19 handler classes; and that in all 19 shipped .ini files a self-clocked "
+        "tagger is re-created only by itself. The number of samples and the growth of rounding are not decided.",
+        "Trusted: role identification of store / time-slice routines (jfsa/protocol.py Roles); REQUIRES table of "
+        "jfsa/mediator_rules.py as the oracle for the commit order; jfsa/inifront.py as a model of the factory.",
+        "DESIGN.md section 3, C17"),
     "C08": (
         "abstract reachability over the tagger wiring of every shipped .ini (finite (activated, pending) state space, "
         "exhaustive) with handler facts derived by effect inference over method closures; must-dataflow (typestate) over "
